@@ -1,14 +1,14 @@
 (* C13 — project enumeration finds every covered file once, correctly paired.
    Theorems over Model/ProjectFiles.v (ProjectFiles.__init__ / iter_locale /
    iter_reference / match / _files, compareProjects' dispatch) and Model/Toml.v.
-   Path matching is a parameter: [matches], [sub], [prefix], [pat] are arbitrary
+   Path matching is a parameter: [matches], [sub], [prefix], [pat] (pattern equality) are arbitrary
    functions (in the running model: the tables of the real Matcher objects); the
    contracts a theorem needs are explicit premises.  Each theorem is closed by a
    lemma of Proofs/ProjectFiles*.v / Proofs/TomlProofs.v.
 
    okey_lt a b  :=  okey_leb a b = true /\ a <> b      (Python's < on the l10n paths)
    ekey e       :=  the l10n path of a yielded tuple *)
-From Coq Require Import ZArith NArith List Bool Arith Sorted.
+From Coq Require Import ZArith NArith List Bool Arith Sorted Lia.
 From CL Require Import Base.Sx Base.Str Model.ProjectFiles Model.Toml
   Proofs.ProjectFilesBase Proofs.ProjectFilesProofs Proofs.ProjectFilesBuild Proofs.TomlProofs.
 Import ListNotations.
@@ -16,7 +16,7 @@ Import ListNotations.
 Section C13.
 Context {M : Type}.
 Variable prefix : M -> str.
-Variable pat : M -> N.
+Variable pat : M -> M -> bool.
 Variable realpath : str -> str.
 Variable matches : M -> str -> bool.
 Variable sub : M -> M -> str -> option str.
@@ -74,11 +74,11 @@ Theorem C13_rules_represented : forall locale hm ps f r,
   build locale hm ps = POk f ->
   In r (enabled_rules locale (fst (gather locale ps [] []))) ->
   exists m, In m (pf_matchers f) /\
-    realpath (prefix (m_l10n m)) = realpath (prefix (with_locale (r_l10n r))) /\
-    pat (m_l10n m) = pat (with_locale (r_l10n r)) /\
     ((m_l10n m = with_locale (r_l10n r) /\ m_ref m = r_ref r /\ incl (r_test r) (m_test m)) \/
-     exists r', In r' (enabled_rules locale (fst (gather locale ps [] []))) /\
-                m_l10n m = with_locale (r_l10n r') /\ m_ref m = r_ref r').
+     (realpath (prefix (m_l10n m)) = realpath (prefix (with_locale (r_l10n r))) /\
+      pat (m_l10n m) (with_locale (r_l10n r)) = true /\
+      exists r', In r' (enabled_rules locale (fst (gather locale ps [] []))) /\
+                 m_l10n m = with_locale (r_l10n r') /\ m_ref m = r_ref r')).
 Proof. exact (build_complete prefix pat realpath with_locale with_merge). Qed.
 
 (* soundness: a yielded tuple comes from an existing, non-excluded file that a matcher of
@@ -137,7 +137,7 @@ Qed.
    environments differ): every existing, non-excluded file covered on the l10n side by an
    enabled rule of a participating configuration is yielded *)
 Theorem C13_complete_rules : forall locale hm ps f out r p,
-  (forall m m' q, realpath (prefix m) = realpath (prefix m') -> pat m = pat m' ->
+  (forall m m' q, realpath (prefix m) = realpath (prefix m') -> pat m m' = true ->
                   matches m q = matches m' q) ->
   build locale hm ps = POk f -> iter_locale f = POk out ->
   In r (enabled_rules locale (fst (gather locale ps [] []))) ->
@@ -148,7 +148,12 @@ Theorem C13_complete_rules : forall locale hm ps f out r p,
 Proof.
   intros locale hm ps f out r p Hclass Hb Hi Hr Hp Hm Hex Hreach.
   destruct (build_complete prefix pat realpath with_locale with_merge _ _ _ _ _ Hb Hr)
-    as [m [Hin [E1 [E2 _]]]].
+    as [m [Hin [[E1 _]|[E1 [E2 _]]]]].
+  - assert (Hm' : matches (m_l10n m) p = true) by (rewrite E1; exact Hm).
+    destruct (Hreach m Hin Hm') as [R1 R2].
+    eapply (iter_locale_complete_l10n prefix matches sub fs); eauto.
+    repeat split; auto.
+  - 
   assert (Hm' : matches (m_l10n m) p = true) by (rewrite (Hclass _ _ p E1 E2); exact Hm).
   destruct (Hreach m Hin Hm') as [R1 R2].
   eapply (iter_locale_complete_l10n prefix matches sub fs); eauto.
@@ -169,7 +174,8 @@ Theorem C13_claim : forall f out pre m0 post p,
     (r = osub (m_l10n m0) (m_ref m0) p /\ mg = osub (m_l10n m0) (m_merge m0) p /\ t = m_test m0).
 Proof.
   intros f out pre m0 post p H E Hpre Hp Hmt Hex [R1 R2].
-  eapply (iter_locale_claim prefix matches sub fs sub_contract); eauto.
+  eapply (iter_locale_claim prefix matches sub fs); eauto.
+  { intros m r q' _ _ _ Hs. eapply sub_contract; eauto. }
   repeat split; auto.
 Qed.
 
@@ -185,7 +191,8 @@ Theorem C13_lookup_agrees : forall f out pre m0 post p,
   forall e, In e out /\ ekey e = Some p <-> pf_match f p = Some e.
 Proof.
   intros f out pre m0 post p H Hl E Hpre Hpre' Hp Hmt Hex [R1 R2].
-  eapply (lookup_agrees_l10n prefix matches sub fs sub_contract); eauto.
+  eapply (lookup_agrees_l10n prefix matches sub fs); eauto.
+  { intros m r q' _ _ _ Hs. eapply sub_contract; eauto. }
   repeat split; auto.
 Qed.
 
@@ -267,7 +274,7 @@ Definition fs : list str :=
 Definition de : str := s [100; 101].
 Definition cfg : cnode nat :=
   CNode (s [116]) (Some [de]) [mkrule 0 (Some 2) [7%N] None; mkrule 0 (Some 2) [9%N] (Some [de])] [].
-Definition pf := build prefix (fun _ => 0%N) (fun x => x) with_locale (fun m => m)
+Definition pf := build prefix (fun _ _ => true) (fun x => x) with_locale (fun m => m)
                        (Some de) false [mkproject cfg []].
 End Ex.
 
@@ -364,7 +371,7 @@ Definition de : str := of_ascii [100; 101].
 Definition ruleA : rule nat := mkrule 0 None [] None.
 Definition ruleB : rule nat := mkrule 10 None [] None.
 Definition cfg : cnode nat := CNode (of_ascii [116]) (Some [de]) [ruleA; ruleB] [].
-Definition pf := build prefix (fun _ => 5%N) (fun x => x) with_locale (fun m => m)
+Definition pf := build prefix (fun _ _ => true) (fun x => x) with_locale (fun m => m)
                        (Some de) false [mkproject cfg []].
 End ExD.
 
@@ -418,4 +425,247 @@ Proof.
   eexists. split; [vm_compute; reflexivity|].
   split; [left; reflexivity|]. split; [reflexivity|].
   split; [left; reflexivity | reflexivity].
+Qed.
+
+(* ==== END TO END: the Matcher parameter instantiated with the modelled Matcher of C11 / C12 ====
+   Proofs/ProjectFilesMatcher.v.  The tables are now FUNCTIONS of Model/Matcher.v:
+     e_matches m p  :=  match_ m p = Ok (Some _)        e_sub m m' p  :=  sub m m' p (Ok (Some q))
+     e_prefix m     :=  prefix m                         e_pat m m'    :=  pattern_eqb
+     e_with_env kv  :=  with_env
+   rules are pattern TEXTS compiled by mk_matcher (compile_rule / compile_cnode /
+   compile_project), and the file list is os.walk over a directory tree (Model/FsTree.v).
+   The matcher contracts of the theorems above are no longer premises: they are discharged from
+   C12_prefix_rooted and C11_roundtrip_rooted for matchers of the rooted grammar
+   ([walkable_matcher]: simple_rooted, prefix defined and containing '/'; [in_grammar_rooted]).
+   What remains as premises is stated in the theorems: the grammar itself, "no final newline"
+   (CPython's `$`), and [prefix_not_a_sibling_file] (C13_prefix_file_refuted). *)
+From CL Require Import Base.Res Regex.Rx Model.Pattern Model.Matcher
+  Proofs.MatcherSpec Proofs.MatcherRoundtrip Proofs.MatcherRooted
+  Model.FsTree Proofs.FsTreeProofs Proofs.ProjectFilesMatcher Proofs.ProjectFilesRefine.
+
+(* os.walk of a directory of the tree = the prefix filter [walk] of the model, for both
+   spellings of the directory (with and without the trailing slash) *)
+Theorem C13_walk_is_tree_walk : forall segs t root es,
+  wf_tree t -> subtree t segs = Some (TDir es) ->
+  dirpath root segs <> [] -> ends_slash (dirpath root segs) = false ->
+  walk (walk_tree root t) (dirpath root segs) = walk_tree (dirpath root segs) (TDir es) /\
+  walk (walk_tree root t) (dirpath root segs ++ [SLASH]) = walk_tree (dirpath root segs) (TDir es).
+Proof. exact model_walk_is_tree_walk. Qed.
+
+(* _files(matcher) is the tree walk from the prefix directory, filtered by excludes and match *)
+Theorem C13_files_is_tree_walk : forall t root segs es loc ex (m : matcher),
+  wf_tree t -> subtree t segs = Some (TDir es) ->
+  dirpath root segs <> [] -> ends_slash (dirpath root segs) = false ->
+  isfile (walk_tree root t) (e_prefix m) = false ->
+  (e_prefix m = dirpath root segs ++ [SLASH] \/
+   (ends_slash (e_prefix m) = false /\ dirname (e_prefix m) = dirpath root segs)) ->
+  files e_prefix e_matches e_sub (walk_tree root t) loc ex m =
+  filter (fun p => negb (excluded e_matches e_sub loc ex p) && e_matches m p)
+         (walk_tree (dirpath root segs) (TDir es)).
+Proof. exact files_is_tree_walk. Qed.
+
+(* completeness: every file of the tree that a listed rule's l10n (reference) pattern matches
+   lies under that matcher's prefix (C12_prefix_rooted), hence is visited by the walk from
+   the prefix, and is yielded (under its own path / under its image) *)
+Theorem C13_complete_end_to_end : forall t root (f : @pfiles matcher) out m p,
+  iter_locale e_prefix e_matches e_sub (walk_tree root t) f = POk out ->
+  In m (pf_matchers f) -> In p (walk_tree root t) ->
+  excluded e_matches e_sub (pf_locale f) (pf_exclude f) p = false ->
+  (forall d, walkable_matcher (m_l10n m) -> match_ (m_l10n m) p = Ok (Some d) ->
+     prefix_not_a_sibling_file (walk_tree root t) (m_l10n m) p ->
+     starts_with (e_prefix (m_l10n m)) p = true /\
+     In p (files e_prefix e_matches e_sub (walk_tree root t) (pf_locale f) (pf_exclude f) (m_l10n m)) /\
+     exists r mg ts, In (Some p, r, mg, ts) out) /\
+  (forall rm d, m_ref m = Some rm -> walkable_matcher rm -> match_ rm p = Ok (Some d) ->
+     prefix_not_a_sibling_file (walk_tree root t) rm p ->
+     starts_with (e_prefix rm) p = true /\
+     In p (files e_prefix e_matches e_sub (walk_tree root t) (pf_locale f) (pf_exclude f) rm) /\
+     exists r mg ts, In (e_sub rm (m_l10n m) p, r, mg, ts) out).
+Proof.
+  intros t root f out m p H Hm Hp Hex. split.
+  - intros d Hw Hmt Hf. eapply complete_e2e_l10n; eauto.
+  - intros rm d Hr Hw Hmt Hf. eapply complete_e2e_ref; eauto.
+Qed.
+
+(* soundness, from the pattern texts: a yielded tuple is claimed by a matcher that is the
+   l10n pattern text of an enabled rule bound to the locale; the path (or, for a file found on
+   the reference side, the reference file) is an existing, non-excluded file that this pattern
+   matches; the other side is its image under sub; and when both patterns are of the grammar
+   with the same wildcards the pair maps back (C11_roundtrip_rooted) *)
+Theorem C13_sound_end_to_end : forall realpath kvl kvm tps ps locale hm fs f out k r mg ts,
+  map_res compile_project tps = Ok ps ->
+  build e_prefix e_pat realpath (e_with_env kvl) (e_with_env kvm) locale hm ps = POk f ->
+  iter_locale e_prefix e_matches e_sub fs f = POk out -> In (k, r, mg, ts) out ->
+  exists m tr L,
+    In m (pf_matchers f) /\ ts = m_test m /\
+    Matcher.mk_matcher (tl10n tr) (tenv tr) (troot tr) = Ok L /\ m_l10n m = e_with_env kvl L /\
+    match tref tr, m_ref m with
+    | None, None => True
+    | Some x, Some R => Matcher.mk_matcher x (tenv tr) (troot tr) = Ok R
+    | _, _ => False
+    end /\
+    rule_enabled locale (mkrule L (m_ref m) (ttest tr) (tlocales tr)) = true /\
+    ((exists p d, k = Some p /\ In p fs /\ match_ (m_l10n m) p = Ok (Some d) /\
+        excluded e_matches e_sub (pf_locale f) (pf_exclude f) p = false /\
+        r = osub e_sub (m_l10n m) (m_ref m) p /\ mg = osub e_sub (m_l10n m) (m_merge m) p /\
+        (forall rm rp, m_ref m = Some rm -> r = Some rp ->
+           in_grammar_rooted (m_l10n m) -> in_grammar_rooted rm -> same_wildcards (m_l10n m) rm ->
+           no_final_newline p -> no_final_newline rp ->
+           (exists d', match_ rm rp = Ok (Some d')) /\ Matcher.sub rm (m_l10n m) rp = Ok (Some p))) \/
+     (exists rm q d, m_ref m = Some rm /\ In q fs /\ match_ rm q = Ok (Some d) /\
+        excluded e_matches e_sub (pf_locale f) (pf_exclude f) q = false /\
+        k = e_sub rm (m_l10n m) q /\ r = Some q /\ mg = osub e_sub rm (m_merge m) q /\
+        (forall kp, k = Some kp ->
+           in_grammar_rooted rm -> in_grammar_rooted (m_l10n m) -> same_wildcards rm (m_l10n m) ->
+           no_final_newline q -> no_final_newline kp ->
+           (exists d', match_ (m_l10n m) kp = Ok (Some d')) /\ Matcher.sub (m_l10n m) rm kp = Ok (Some q)))).
+Proof.
+  intros realpath kvl kvm tps ps locale hm fs f out k r mg ts Hc Hb Hi Hin.
+  destruct (sound_e2e fs f out k r mg ts Hi Hin) as [m [Hm [Ht Hd]]].
+  destruct (build_from_texts realpath kvl kvm tps ps locale hm f m Hc Hb Hm)
+    as [tr [L [A1 [A2 [A3 [_ [_ A6]]]]]]].
+  exists m, tr, L. repeat (split; [assumption|]). exact Hd.
+Qed.
+
+(* the claiming rule and enumeration = lookup, with the sub contract discharged from
+   C11_roundtrip_rooted (the earlier matchers are of the grammar; paths end in no newline) *)
+Theorem C13_claim_end_to_end : forall fs (f : @pfiles matcher) out pre m0 post p d,
+  iter_locale e_prefix e_matches e_sub fs f = POk out -> pf_matchers f = pre ++ m0 :: post ->
+  Forall no_final_newline fs ->
+  (forall m r, In m pre -> m_ref m = Some r ->
+     in_grammar_rooted r /\ in_grammar_rooted (m_l10n m) /\ same_wildcards r (m_l10n m)) ->
+  (forall m, In m pre -> match_ (m_l10n m) p = Ok None) ->
+  In p fs -> walkable_matcher (m_l10n m0) -> match_ (m_l10n m0) p = Ok (Some d) ->
+  excluded e_matches e_sub (pf_locale f) (pf_exclude f) p = false ->
+  prefix_not_a_sibling_file fs (m_l10n m0) p ->
+  forall r mg ts,
+    In (Some p, r, mg, ts) out <->
+    (r = osub e_sub (m_l10n m0) (m_ref m0) p /\ mg = osub e_sub (m_l10n m0) (m_merge m0) p /\
+     ts = m_test m0).
+Proof. exact claim_e2e. Qed.
+
+Theorem C13_lookup_agrees_end_to_end : forall fs (f : @pfiles matcher) out pre m0 post p d,
+  iter_locale e_prefix e_matches e_sub fs f = POk out -> pf_locale f <> None ->
+  pf_matchers f = pre ++ m0 :: post ->
+  Forall no_final_newline fs ->
+  (forall m r, In m pre -> m_ref m = Some r ->
+     in_grammar_rooted r /\ in_grammar_rooted (m_l10n m) /\ same_wildcards r (m_l10n m)) ->
+  (forall m, In m pre -> match_ (m_l10n m) p = Ok None) ->
+  (forall m r, In m pre -> m_ref m = Some r -> match_ r p = Ok None) ->
+  In p fs -> walkable_matcher (m_l10n m0) -> match_ (m_l10n m0) p = Ok (Some d) ->
+  excluded e_matches e_sub (pf_locale f) (pf_exclude f) p = false ->
+  prefix_not_a_sibling_file fs (m_l10n m0) p ->
+  forall e, In e out /\ ekey e = Some p <-> pf_match e_matches e_sub f p = Some e.
+Proof. exact lookup_e2e. Qed.
+
+(* refinement: finite tables that agree with the Matcher functions on the prefixes and on
+   the files of the tree (what the harness feeds the extracted model) give the same
+   enumeration and the same lookups; every table-based theorem above therefore speaks about
+   the run of the model on the tables *)
+Theorem C13_tables_refine : forall {M : Type} (prefix prefix' : M -> str)
+    (matches matches' : M -> str -> bool) (sub sub' : M -> M -> str -> option str) fs,
+  (forall m, prefix m = prefix' m) ->
+  (forall m p, In p fs -> matches m p = matches' m p) ->
+  (forall m m' p, In p fs -> sub m m' p = sub' m m' p) ->
+  forall f, iterate prefix matches sub fs f = iterate prefix' matches' sub' fs f /\
+            forall p, In p fs -> pf_match matches sub f p = pf_match matches' sub' f p.
+Proof.
+  intros M prefix prefix' matches matches' sub sub' fs H1 H2 H3 f. split.
+  - apply iterate_ext; assumption.
+  - intros p Hp. apply pf_match_ext with (fs := fs); assumption.
+Qed.
+
+(* ---- a concrete project, from pattern texts and a directory tree, run through the regex engine:
+   root /t, rule l10n = "l/{locale}/*.ftl", reference = "en/*.ftl", test 3, locale de;
+   tree /t/en/{a,b}.ftl, /t/l/de/{a.ftl,x.txt} *)
+Module ExE.
+Definition a (l : list nat) : str := of_ascii l.
+Definition l10n_text : str := a [108;47;123;108;111;99;97;108;101;125;47;42;46;102;116;108].
+Definition ref_text : str := a [101;110;47;42;46;102;116;108].
+Definition de : str := a [100;101].
+Definition root : option str := Some (a [47;116]).
+Definition kvl : list (str * str) := [(s_locale, de)].
+Definition tr : trule := mktrule l10n_text (Some ref_text) [] root [3%N] None.
+Definition tp : tproject := mktproject (TCNode (a [99]) (Some [de]) [tr] []) [].
+Definition tree : FsTree.tree :=
+  TDir [(a [116], TDir [(a [101;110], TDir [(a [97;46;102;116;108], TFile); (a [98;46;102;116;108], TFile)]);
+                        (a [108], TDir [(de, TDir [(a [97;46;102;116;108], TFile); (a [120;46;116;120;116], TFile)])])])].
+Definition fs : list str := walk_tree [] tree.
+(* the l10n matcher of the rule bound to the locale, and the reference matcher *)
+Definition Lb : result matcher := do m <- Matcher.mk_matcher l10n_text [] root; with_env m kvl.
+Definition Rm : result matcher := Matcher.mk_matcher ref_text [] root.
+Definition pf : option (@pfiles matcher) :=
+  match map_res compile_project [tp] with
+  | Ok ps =>
+      match build e_prefix e_pat (fun x => x) (e_with_env kvl) (e_with_env []) (Some de) false ps with
+      | POk f => Some f
+      | PRaise _ => None
+      end
+  | Raise _ => None
+  end.
+End ExE.
+
+Example C13_end_to_end_example :
+  ExE.fs = map ExE.a [[47;116;47;101;110;47;97;46;102;116;108]; [47;116;47;101;110;47;98;46;102;116;108];
+                      [47;116;47;108;47;100;101;47;97;46;102;116;108]; [47;116;47;108;47;100;101;47;120;46;116;120;116]] /\
+  match ExE.pf with
+  | Some f =>
+      map (fun m => e_prefix (m_l10n m)) (pf_matchers f) = [ExE.a [47;116;47;108;47;100;101;47]] /\
+      iterate e_prefix e_matches e_sub ExE.fs f =
+      POk [(Some (ExE.a [47;116;47;108;47;100;101;47;97;46;102;116;108]),
+            Some (ExE.a [47;116;47;101;110;47;97;46;102;116;108]), None, [3%N]);
+           (Some (ExE.a [47;116;47;108;47;100;101;47;98;46;102;116;108]),
+            Some (ExE.a [47;116;47;101;110;47;98;46;102;116;108]), None, [3%N])] /\
+      pf_match e_matches e_sub f (ExE.a [47;116;47;101;110;47;98;46;102;116;108]) =
+      Some (Some (ExE.a [47;116;47;108;47;100;101;47;98;46;102;116;108]),
+            Some (ExE.a [47;116;47;101;110;47;98;46;102;116;108]), None, [3%N])
+  | None => False
+  end.
+Proof. vm_compute. repeat split; reflexivity. Qed.
+
+(* the premises of the end-to-end theorems hold of it: both matchers are of the rooted grammar
+   with the same wildcards and can be walked from, the tree is well formed, no path ends in a
+   newline, the prefix is no file *)
+Example C13_end_to_end_premises_example : exists ML MR f,
+  ExE.Lb = Ok ML /\ ExE.Rm = Ok MR /\ ExE.pf = Some f /\
+  map (fun m => (m_l10n m, m_ref m)) (pf_matchers f) = [(ML, Some MR)] /\
+  in_grammar_rooted ML /\ in_grammar_rooted MR /\ same_wildcards ML MR /\ same_wildcards MR ML /\
+  walkable_matcher ML /\ walkable_matcher MR /\
+  wf_tree ExE.tree /\ Forall no_final_newline ExE.fs /\
+  (forall p, prefix_not_a_sibling_file ExE.fs ML p) /\ (forall p, prefix_not_a_sibling_file ExE.fs MR p).
+Proof.
+  destruct ExE.Lb as [ML|] eqn:EL; [|vm_compute in EL; discriminate].
+  destruct ExE.Rm as [MR|] eqn:ER; [|vm_compute in ER; discriminate].
+  destruct ExE.pf as [f|] eqn:EF; [|vm_compute in EF; discriminate].
+  exists ML, MR, f. vm_compute in EL. inversion EL; subst ML. vm_compute in ER. inversion ER; subst MR.
+  vm_compute in EF. inversion EF; subst f. clear EL ER EF.
+  split; [reflexivity|]. split; [reflexivity|]. split; [reflexivity|]. split; [reflexivity|].
+  match goal with |- in_grammar_rooted ?X /\ in_grammar_rooted ?Y /\ _ =>
+    assert (GL : in_grammar_rooted X); [|assert (GR : in_grammar_rooted Y)] end.
+  { split.
+    - split; [vm_compute; repeat constructor; simpl; intuition discriminate|].
+      simpl. eexists. split; [vm_compute; reflexivity|left; lia].
+    - split; [split; [vm_compute; reflexivity|split; [reflexivity|]]|].
+      { vm_compute. repeat constructor; simpl; intuition discriminate. }
+      split; [eexists; eexists; vm_compute; reflexivity|].
+      split. { repeat constructor; simpl; intros k H; inversion H. }
+      split. { repeat constructor; simpl; discriminate. }
+      left. reflexivity. }
+  { split.
+    - split; [constructor|]. simpl. eexists. split; [reflexivity|left; lia].
+    - split; [split; [reflexivity|split; [reflexivity|constructor]]|].
+      split; [eexists; eexists; vm_compute; reflexivity|].
+      split; [repeat constructor|]. split; [repeat constructor|]. left. reflexivity. }
+  split; [exact GL|]. split; [exact GR|]. split; [reflexivity|]. split; [reflexivity|].
+  split.
+  { split; [apply in_grammar_simple_rooted; exact GL|]. eexists. split; [vm_compute; reflexivity|].
+    vm_compute. auto. }
+  split.
+  { split; [apply in_grammar_simple_rooted; exact GR|]. eexists. split; [vm_compute; reflexivity|].
+    vm_compute. auto. }
+  split; [vm_compute; repeat split; repeat constructor; simpl; intuition discriminate|].
+  split.
+  { vm_compute. repeat constructor; intros q H; apply (f_equal (@rev N)) in H;
+      rewrite rev_app_distr in H; simpl in H; discriminate. }
+  split; intros p H; vm_compute in H; discriminate.
 Qed.
